@@ -173,7 +173,9 @@ func (w *world) runRoutine(g int, steps []Step, rs *routine) {
 	for i, s := range steps {
 		switch s.Op {
 		case "notify":
-			w.notifying(w.tr.NotifyOfChange)
+			for k := 0; k < max(s.N, 1); k++ {
+				w.notifying(w.tr.NotifyOfChange)
+			}
 		case "unlock", "unlock-quiet":
 			w.lk.Lock()
 			if n := w.inCS.Add(1); n != 1 {
@@ -228,7 +230,7 @@ func runCase(c *Case) *History {
 	for _, r := range c.Routines {
 		for _, s := range r {
 			if s.Op == "notify" || s.Op == "unlock" {
-				notifies++
+				notifies += max(s.N, 1)
 			}
 		}
 	}
@@ -374,8 +376,10 @@ func trim(h *History) *History {
 
 func genStep(rt *rapid.T) Step {
 	switch k := rapid.IntRange(0, 99).Draw(rt, "op"); {
-	case k < 20:
+	case k < 14:
 		return Step{Op: "notify"}
+	case k < 20:
+		return Step{Op: "notify", N: rapid.IntRange(2, 40).Draw(rt, "n")}
 	case k < 32:
 		return Step{Op: "unlock"}
 	case k < 38:
@@ -436,7 +440,7 @@ func TestC30_Schedules(t *testing.T) {
 		"rapid: 1-12 goroutines x 1-8 steps (notify / lock+unlock / lock+unlock-without-notify / wait with previous index zero|current|last|stale|future and no|pre|timed cancellation / terminate / yield / sleep) run against the real tracker; "+
 			"non-trivial: >= 2 goroutines and at least one long-poll whose previous index could still be current when it was issued and that was released by a later change")
 	rec.Note("timing_bound", bound.String())
-	ev.Check(t, rec, 5000, 60000, func(rt *rapid.T) {
+	ev.Check(t, rec, 3000, 40000, func(rt *rapid.T) {
 		c := genCase(rt)
 		v, fail := execute(c)
 		rec.Eval()
@@ -466,7 +470,7 @@ func TestC30_Sequential(t *testing.T) {
 	rec := ev.New(t, propID, "sequential",
 		"rapid: one goroutine, 1-24 steps; every returned index is determined exactly (lower bound = upper bound); "+
 			"non-trivial: the script has a notifying call, a non-notifying unlock and a wait with a non-zero previous index")
-	ev.Check(t, rec, 1500, 20000, func(rt *rapid.T) {
+	ev.Check(t, rec, 1000, 15000, func(rt *rapid.T) {
 		c := &Case{}
 		var steps []Step
 		for i, k := 0, rapid.IntRange(1, 24).Draw(rt, "steps"); i < k; i++ {
